@@ -83,10 +83,27 @@ class PathView:
                         v = dag.const(struct.unpack("<d", struct.pack("<Q", v))[0] if es == 8 else
                                       struct.unpack("<f", struct.pack("<I", v))[0], prec=prec)
                     vals.append(v)
-                elif c is None:
+                elif c is None and es == 4 and i % 2 == 1 and o.cells.get((i - 1) * 4, (0, None))[0] == 8 \
+                        and isinstance(o.cells[(i - 1) * 4][1], int):
+                    import struct
+                    vals.append(dag.const(struct.unpack("<f", struct.pack("<I", o.cells[(i - 1) * 4][1] >> 32))[0], prec=prec))
+                elif c is None and not any(k in o.cells for k in range(i * es + 1, i * es + es)):
                     vals.append(dag.var("%s%d" % (nm, i), prec=prec))
-                else:
+                elif c is None:
                     vals.append(None)
+                else:
+                    # byte-wise concrete content (memset / copies of zero-initialised storage)
+                    bs = [o.cells.get(i * es + k) for k in range(es)]
+                    if all(b is not None and b[0] == 1 and isinstance(b[1], int) for b in bs):
+                        import struct
+                        iv = sum(b[1] << (8 * k) for k, b in enumerate(bs))
+                        vals.append(dag.const(struct.unpack("<d", struct.pack("<Q", iv))[0] if es == 8 else
+                                              struct.unpack("<f", struct.pack("<I", iv))[0], prec=prec))
+                    elif c[0] == 8 and es == 4 and isinstance(c[1], int):
+                        import struct
+                        vals.append(dag.const(struct.unpack("<f", struct.pack("<I", c[1] & 0xFFFFFFFF))[0], prec=prec))
+                    else:
+                        vals.append(None)
             self.mem[nm] = vals
             self.written[nm] = set(o.written)
             self.read[nm] = set(o.read)
@@ -212,7 +229,8 @@ def unit_relation(ctx, names, lastsq_value=1):
 
 
 def path_feasible(pv, hyp=None):
-    """False if some path atom is decided the other way by the hypothesis relations (R-semantics)."""
+    """False if some path atom is decided the other way by the hypothesis relations (R-semantics), or if the path
+    requires a sum of squares of inputs to be <= 0 (all of them zero: excluded by 'non-zero input' preconditions)."""
     ctx = poly.Ctx()
     if hyp:
         hyp(ctx)
@@ -224,14 +242,33 @@ def path_feasible(pv, hyp=None):
             d = poly.to_rf(ctx, a) - poly.to_rf(ctx, b)
             if d.d is not None:
                 continue
-            cv = d.n.reduce(full=True).const_value()
+            red = d.n.reduce(full=True)
+            cv = red.const_value()
         except Exception:
             continue
         if cv is None:
+            # sum of squares with positive coefficients compared with 0
+            poss = symex.pred_set(pred) if choice else (symex.ALL4 - symex.pred_set(pred))
+            poss = poss - {symex.UN}
+            if poss and poss <= {symex.LT, symex.EQ} and _is_sumsq(ctx, red):
+                return False
             continue
         rel = symex.LT if cv < 0 else symex.GT if cv > 0 else symex.EQ
         if (rel in symex.pred_set(pred)) != choice:
             return False
+    return True
+
+
+def _is_sumsq(ctx, lp):
+    if not lp.t:
+        return False
+    for m, c in lp.t.items():
+        if c <= 0:
+            return False
+        for i in range(len(ctx.names)):
+            e = ((m >> (poly.BITS * i)) & poly.MASK) - poly.BIAS
+            if e % 2:
+                return False
     return True
 
 
@@ -338,3 +375,75 @@ def self_validate(xt, fn, bufs, sampler, n=50, seed=0, kind="so-clang"):
                     return False, "mismatch %s %s[%d]: dag %r native %r at %r" % (fn, nm, i, a, b, env)
         checked += 1
     return True, checked
+
+
+# ------------------------------------------------------------------------------------------ F-level sign facts
+def path_rel(pv, node, c=0):
+    """Set of IEEE outcomes of (node ? c) still possible on this path (from the recorded F-exact branch facts)."""
+    poss = set(symex.ALL4)
+    for key, lst in pv.p.facts.items():
+        if key == ("n", node.id):
+            for c2, s2 in lst:
+                poss &= symex.Executor._implied(c2, s2, Fraction(c))
+    return poss
+
+
+def sign_fact(pv, node, nonneg_vars=(), pos_vars=(), depth=0):
+    """'pos' / 'nonneg' / None: bit-exact sign knowledge about an FP node on a path (NaN counts as satisfying;
+    the clause proved is  node >= 0 or isnan(node))."""
+    if node.op == "const":
+        return "pos" if node.args[0] > 0 else "nonneg" if node.args[0] == 0 else None
+    rel = path_rel(pv, node)
+    if rel <= {symex.GT, symex.UN}:
+        return "pos"
+    if rel <= {symex.GT, symex.EQ, symex.UN}:
+        return "nonneg"
+    if node.op == "var":
+        if node.args[0] in pos_vars:
+            return "pos"
+        if node.args[0] in nonneg_vars:
+            return "nonneg"
+        return None
+    if depth > 12:
+        return None
+    if node.op == "neg":
+        x = node.args[0]
+        r2 = path_rel(pv, x)
+        if r2 <= {symex.LT, symex.UN}:
+            return "pos"
+        if r2 <= {symex.LT, symex.EQ, symex.UN}:
+            return "nonneg"
+        return None
+    if node.op == "mul":
+        a, b = node.args
+        for x, y in ((a, b), (b, a)):
+            if y.op == "const" and y.args[0] < 0:
+                r2 = path_rel(pv, x)
+                if r2 <= {symex.LT, symex.UN}:
+                    return "pos"
+                if r2 <= {symex.LT, symex.EQ, symex.UN}:
+                    return "nonneg"
+        if a is b:
+            return "nonneg"
+        sa, sb = sign_fact(pv, a, nonneg_vars, pos_vars, depth + 1), sign_fact(pv, b, nonneg_vars, pos_vars, depth + 1)
+        if sa and sb:
+            return "nonneg"       # product of non-negatives (underflow may give 0)
+        return None
+    if node.op == "div":
+        a, b = node.args
+        sa, sb = sign_fact(pv, a, nonneg_vars, pos_vars, depth + 1), sign_fact(pv, b, nonneg_vars, pos_vars, depth + 1)
+        if sa and sb:
+            return "nonneg"       # x >= 0, y >= 0: x/y >= 0 or NaN (0/0)
+        return None
+    if node.op == "add":
+        a, b = node.args
+        sa, sb = sign_fact(pv, a, nonneg_vars, pos_vars, depth + 1), sign_fact(pv, b, nonneg_vars, pos_vars, depth + 1)
+        if sa and sb:
+            return "pos" if "pos" in (sa, sb) else "nonneg"
+        return None
+    if node.op == "call" and node.args[0] in ("sqrt", "fabs"):
+        return "nonneg"
+    if node.op in ("fpext", "fptrunc"):
+        s = sign_fact(pv, node.args[0], nonneg_vars, pos_vars, depth + 1)
+        return "nonneg" if s else None
+    return None
